@@ -11,7 +11,7 @@
    Every theorem is for all sequences, both representations, both argument forms, all
    indices / path segments; nothing is bounded. *)
 From Coq Require Import ZArith NArith List Bool Ascii String Lia.
-From Verif Require Import Util Strconv Strings StringsSpec StringsOps StringsHist StringsKeys StringsMain.
+From Verif Require Import Util Strconv Strings StringsSpec StringsOps StringsHist StringsKeys StringsMain StringsStorage.
 Import ListNotations.
 Local Open Scope Z_scope.
 
@@ -229,6 +229,17 @@ Theorem C17_histories : forall ops st, good (h_arg st) = true ->
   rep_of (h_arg (hrun fixed ops st)) = rep_of (h_arg st).
 Proof. exact history_sim. Qed.
 Print Assumptions C17_histories.
+
+(* Stored bytes are never rewritten: after any history (any number of calls, texts of any length) every
+   element of the value is an element it had before - same allocation, same bytes, same capacity - or
+   lives in an allocation handed out during the history.  Hence "exactly element i": no call stores into
+   the storage of another element, however long ago that was stored, and what was read from an element
+   reads the same for ever. *)
+Theorem C17_histories_keep_storage : forall w ops st,
+  h_nid st <= h_nid (hrun w ops st) /\
+  forall e, In e (elems_of (h_arg (hrun w ops st))) -> In e (elems_of (h_arg st)) \/ h_nid st <= e_id e.
+Proof. exact history_keeps_storage. Qed.
+Print Assumptions C17_histories_keep_storage.
 
 (* ---------- non-vacuity ---------- *)
 Local Open Scope string_scope.
